@@ -1021,6 +1021,9 @@ def _frame_fields(o):
     return out
 
 
+RESET_STREAMS = ("frame-substitute-frames", "junk-glued-to-rstack", "cancel-then-frames", "error-then-rstack", "overflow-then-frames")
+
+
 @rule("R02.5", ["C02", "C04", "C01", "C11", "C09", "C03"], "T-FUN", floor=60)
 def r02_5(ctx):
     """Streams and chunkings against a reference receiver written from the specification: curated byte streams covering
@@ -1111,18 +1114,20 @@ def r02_5(ctx):
                     got.append(("nak",) if isinstance(w, (bytes, bytearray)) and bytes(w) == nak_wire else
                                ("write", bytes(w).hex() if isinstance(w, (bytes, bytearray)) else repr(w)[:60]))
             key = f"stream:{name}"
+            # the reset handshake (C09, C11) is affected only through streams that carry an RSTACK
+            scope = None if name in RESET_STREAMS else ("C02", "C04", "C01", "C03")
             settled = [e for e in p.events if e.kind == "call" and e.callee and e.callee.startswith("pending") and
                        e.callee.split(".")[-1] in ("set_result", "set_exception", "cancel")]
             if settled:
                 ctx.violation(key + ":ack", f"stream '{name}' split at {list(cut)}: the byte scanner itself settles a pending send ({settled[0].brief()}); acknowledgement "
-                              "information may be taken only from frames that passed validation (frame_received)", func=f, trace=p.trace(30), construct=name)
+                              "information may be taken only from frames that passed validation (frame_received)", func=f, trace=p.trace(30), construct=name, props=scope)
             elif p.terminal != "return":
-                ctx.violation(key, f"stream '{name}' split at {list(cut)}: {p.value!r} escapes the receive callback", func=f, trace=p.trace(30), construct=name)
+                ctx.violation(key, f"stream '{name}' split at {list(cut)}: {p.value!r} escapes the receive callback", func=f, trace=p.trace(30), construct=name, props=scope)
             elif got != want:
                 i = next((k for k, (a, b) in enumerate(zip(got, want)) if a != b), min(len(got), len(want)))
                 ctx.violation(key, f"stream '{name}' split into reads at {list(cut)}: event #{i} is {got[i] if i < len(got) else 'missing'!r:.160}, the reference "
                               f"receiver gives {want[i] if i < len(want) else 'nothing more'!r:.160} ({len(got)} events vs {len(want)})", func=f,
-                              trace=p.trace(30), construct=name)
+                              trace=p.trace(30), construct=name, props=scope)
             else:
                 ctx.ok(1, (name, cut))
     ctx.sample({"streams": {k: v.hex() if len(v) < 80 else f"{len(v)} bytes" for k, v in _streams(ctx).items()}})
